@@ -220,7 +220,9 @@ impl Valid {
                     );
                 }
                 // per-insertion Delaunay check enabled → Delaunay level certified
-                if post.policies[3].contains("EveryN(1)") && !post.cells.is_empty() {
+                if out.predicate_failure_absorbed() {
+                    ctx.stats.bump("c02.delaunay_clause_not_judged_predicate_failure_absorbed");
+                } else if post.policies[3].contains("EveryN(1)") && !post.cells.is_empty() {
                     let rd = refdt::check(post);
                     ctx.stats.abstained += rd.abstained as u64;
                     if !rd.violations.is_empty() && crate::geom::embedded(post, rv_post) == crate::geom::Tri::Yes {
@@ -299,7 +301,9 @@ impl Valid {
         // automatic repair enabled → Delaunay certified (when the pre-state was Delaunay and valid)
         // automatic repair is enabled for every policy except `Never` (removal repairs
         // unconditionally under EveryInsertion and EveryN)
-        if post.policies[2] != "Never"
+        if out.predicate_failure_absorbed() {
+            ctx.stats.bump("c06.delaunay_clause_not_judged_predicate_failure_absorbed");
+        } else if post.policies[2] != "Never"
             && !post.cells.is_empty()
             && crate::geom::embedded(pre, rv_pre) == crate::geom::Tri::Yes
             && crate::geom::embedded(post, rv_post) == crate::geom::Tri::Yes
@@ -373,7 +377,9 @@ impl Valid {
         }
         let rd = refdt::check(post);
         ctx.stats.abstained += rd.abstained as u64;
-        if !rd.violations.is_empty() {
+        if out.predicate_failure_absorbed() {
+            ctx.stats.bump("c08.delaunay_clause_not_judged_predicate_failure_absorbed");
+        } else if !rd.violations.is_empty() {
             push_violation(
                 ctx.violations,
                 violation("C08", "not-delaunay-after-repair", ctx.step, format!("op={kind}|delaunay|heuristic={}|d={}|{}", out.used_heuristic, D, rd.violation_class()), format!("repair reported success but {} exact empty-circumsphere violations remain, e.g. {:x?} (local violations {}, locally violating facets {}, of which with a flat flip {})", rd.violations.len(), rd.violations[0], rd.local_violations, rd.local_facets, rd.local_facets_degenerate_flip)),
